@@ -130,6 +130,8 @@ SupportedKinds == {
     "ternary-assign", "bare-name", "expr-arith", "led-method", "led-on", "sleep", "serial-write", "serial-write-str",
     "fstring-write", "func-call", "builtin-call", "if-stmt", "if-else", "if-elif", "while-stmt", "for-range",
     "try-except", "break", "continue", "return-value", "return-bare",
+    \* a keyword standing directly against its operand (optional spacing)
+    "return-paren-tight", "return-minus-tight", "return-tab", "if-paren-tight", "elif-paren-tight", "while-paren-tight",
     \* string literals that contain `#` after escaped quotes (a comment stripper must respect the literal), and a loop
     \* sitting next to a first assignment in the same `if` (the promotion pass rewrites that branch)
     "serial-write-hash-dq", "serial-write-hash-sq", "if-hash-literal", "if-first-assign-and-for", "else-first-assign-and-while"}
